@@ -180,6 +180,26 @@ def reader(rng):
 def gen_C02(rng, count, tier):
     big = [16383, 16384, 16385, 32768, 40000] if tier == "thorough" else [16384, 16390]
     for i in range(count):
+        if rng.random() < 0.04:
+            # a body larger than one QIODevice chunk (16 KiB), partly consumed by small reads while more of
+            # it - and bytes beyond the declared length - are still to come (offsets into a partly read buffer)
+            n = rng.randrange(16500, 42000)
+            body = bytes((j * 11 + i) % 253 for j in range(n))
+            m = rng.randrange(16385, n)
+            head = valid_head(rng, cl=str(n).encode(), plain=True)
+            rd = pick(rng, ["@rr read:%d @end" % pick(rng, [1, 100, 5000, 16384, 16385]), "@hp read:%d @end" % pick(rng, [1, 100, 20000]),
+                            "@rr read:7 avail @end @rcf avail readall @end"])
+            evs = ["feed:" + hx(head + b"\r\n\r\n" + body[:m])]
+            if rng.random() < 0.4:
+                evs.append(pick(rng, ["read:1", "read:100", "avail", "read:16384"]))
+            m2 = rng.randrange(m, n + 1)
+            if m2 > m and rng.random() < 0.5:
+                evs.append("feed:" + hx(body[m:m2]))
+                m = m2
+            evs.append("feed:" + hx(body[m:] + pick(rng, [b"EXTRA", b"", b"Z", b"GET /2 HTTP/1.1\r\n\r\n"])))
+            evs.append(pick(rng, ["readall", "read:50 avail readall", "avail readall"]))
+            yield ("sock", " ".join([rd, "new"] + evs))
+            continue
         n = pick(rng, [0, 1, 2, 3, 4, 5, 8, 13, 40]) if rng.random() < 0.93 else pick(rng, big)
         body = bytes(rng.randrange(256) for _ in range(n)) if n < 100 else bytes((j * 7 + i) % 251 for j in range(n))
         if n >= 4 and rng.random() < 0.3:
@@ -510,8 +530,18 @@ def gen_route(rng, count, accept_p):
             t += "?q=1"
         if rng.random() < 0.05:
             t = pick(rng, ["/", "", "*", "//", "/a//b"])
-        toks.append("req:" + hx(t.encode()))
         r = rng.random()
+        if r >= 0.16 and rng.random() < 0.25:
+            # earlier requests (for the same path, mostly) on other connections while the tree is still being
+            # built: what is attached afterwards must be in force for the observed request
+            first = min(j for j, x in enumerate(toks) if x.startswith("node:"))
+            for _ in range(rng.choice([1, 1, 2])):
+                wt = t if rng.random() < 0.7 else "/" + "/".join(pick(rng, RSEGS) for _ in range(rng.randrange(0, 3)))
+                pos = rng.randrange(first + 1, len(toks) + 1)
+                while pos < len(toks) and toks[pos].startswith("pat:") is False and pos > 0 and toks[pos - 1].startswith("pat:"):
+                    pos += 1                 # never between a pattern and the node/redirect that introduces it... keep order simple
+                toks.insert(pos, "warm:" + hx(wt.encode()))
+        toks.append("req:" + hx(t.encode()))
         if r < 0.04:
             toks.append("noroot")
         elif r < 0.12:
@@ -916,9 +946,11 @@ def gen_C10(rng, count, tier):
         "fs": [b"GET /big.bin HTTP/1.1\r\n\r\n", b"GET /in.txt HTTP/1.1\r\n\r\n", b"GET /sub HTTP/1.1\r\n\r\n", b"GET /big.bin HTTP/1.1\r\nRange: bytes=10-69000\r\n\r\n",
                b"GET /nonexistent HTTP/1.1\r\n\r\n", b"BAD\r\n\r\n", b"GET /edge.bin HTTP/1.1\r\n\r\n"],
         "slot": [b"POST /s HTTP/1.1\r\nContent-Length: 5\r\n\r\nhello", b"POST /s HTTP/1.1\r\nContent-Length: 50\r\n\r\nshort", b"GET /s HTTP/1.1\r\n\r\n", b"GET /x HTTP/1.1\r\n\r\n"],
+        # proxied to an upstream that accepts and never answers: the request stays in flight
+        "proxy": [b"GET /p HTTP/1.1\r\n\r\n", b"POST /p HTTP/1.1\r\nContent-Length: 5\r\n\r\nhello", b"POST /p HTTP/1.1\r\nContent-Length: 50\r\n\r\nshort", b"BAD\r\n\r\n"],
     }
     for i in range(count):
-        kind = pick(rng, ["fs", "fs", "fs", "slot"])
+        kind = pick(rng, ["fs", "fs", "fs", "fs", "slot", "proxy"])
         req = pick(rng, reqs[kind])
         cut = rng.randrange(0, len(req) + 1) if rng.random() < 0.5 else len(req)
         sent = req[:cut]
